@@ -173,3 +173,13 @@ Fixpoint store_mismatches_from (k : nat) (cs : list store_case) : list nat :=
   | c :: r => if store_ok c then store_mismatches_from (S k) r else k :: store_mismatches_from (S k) r
   end.
 Definition store_mismatches := store_mismatches_from 0.
+
+(* descending sorted merge: the operator's output is exactly merge_kd of the readers' descending streams *)
+Fixpoint sortmerge_desc_mismatches_from (k : nat) (cs : list sortmerge_case) : list nat :=
+  match cs with
+  | [] => []
+  | (inputs, got) :: r =>
+      if list_eqb arow_eqb (merge_kd inputs) got then sortmerge_desc_mismatches_from (S k) r
+      else k :: sortmerge_desc_mismatches_from (S k) r
+  end.
+Definition sortmerge_desc_mismatches := sortmerge_desc_mismatches_from 0.
